@@ -105,7 +105,7 @@ fn probe(a: &[String]) {
             let thr = a.get(3).map(|s| infra::thr_parse(s)).unwrap_or(0.0);
             println!("{:?}", infra::guard(|| text2num::replace_numbers_in_text(&a[2], &lang, thr)))
         }
-        "newlits" => println!("{:?}", vocab::new_source_literals(l)),
+        "newlits" => println!("{:?} {:?}", vocab::new_source_literals(l), vocab::new_symbol_literals(l)),
         "spell" => {
             let n: u64 = a[2].parse().unwrap();
             for (name, v) in spell::axes(l) {
